@@ -68,18 +68,34 @@ def regenerate(scratch, mods):
 
 
 def setup():
+    """Build everything (make -k).  Exit status reflects the CLAIMED properties only: files of
+    properties still under construction may fail to build without failing the setup."""
     t0 = time.time()
     mods = all_prop_modules()
     scratch = esrv.scratch_copy()
     errs = regenerate(scratch, mods)
     write_coqproject()
     ok, log = esrv.coq_make()
-    sys.stdout.write(log[-3000:])
+    sys.stdout.write(log[-2000:])
+    claimed = json.load(open(os.path.join(HERE, "claimed.json")))
+    bad_claimed = []
+    for pid in claimed:
+        m = mods.get(pid)
+        if m is None:
+            bad_claimed.append(pid + ": module missing")
+            continue
+        deps = esrv.coq_deps(m.PROPS_V)
+        if not all(esrv.vo_ok(d) for d in deps):
+            bad_claimed.append(pid + ": " + ", ".join(d for d in deps if not esrv.vo_ok(d)))
+        hy = esrv.hygiene(only=set(deps))
+        if hy:
+            bad_claimed.append(pid + ": hygiene " + "; ".join(hy[:3]))
+        if errs.get(pid):
+            bad_claimed.append(pid + ": translator " + "; ".join(errs[pid]))
     print("[setup] translators refused:", errs)
-    print("[setup] coq build ok=%s in %.0fs" % (ok, time.time() - t0))
-    bad = esrv.hygiene()
-    print("[setup] hygiene:", bad or "clean")
-    return 0 if ok and not bad else 1
+    print("[setup] full build ok=%s in %.0fs; claimed=%s; problems in claimed: %s" % (ok, time.time() - t0, claimed, bad_claimed or "none"))
+    print("[setup] hygiene (whole tree):", esrv.hygiene() or "clean")
+    return 1 if bad_claimed else 0
 
 
 def main():
